@@ -246,6 +246,17 @@ fn constraint_part(ep: &Value, voc: &Vocab, ct: &CTok, cfg: &Cfg, rng: &mut Rng,
             })
             .collect();
         poison_heap(nwords_mask);
+        // "contig": the batch writes into ONE buffer of equal slots (the usual [batch, vocab] tensor): a step that writes
+        // outside its slot changes a neighbour's mask, and which neighbour keeps the damage depends on the schedule
+        let contig = ep["contig"].as_u64().unwrap_or(0) == 1;
+        let lens: Vec<usize> = if contig { vec![nwords_mask + (round as usize % 2); cs.len()] } else { lens };
+        let slot = lens[0];
+        let mut big: Vec<u32> = vec![0x7777_7777u32; if contig { 2 + slot * (cs.len() + 4) } else { 0 }];
+        if contig {
+            big[0] = CANARY;
+            let last = big.len() - 1;
+            big[last] = CANARY;
+        }
         let mut bufs: Vec<Vec<u32>> = lens.iter().map(|&l| {
             let mut b = vec![0x7777_7777u32; l + 2];
             b[0] = CANARY;
@@ -253,9 +264,24 @@ fn constraint_part(ep: &Value, voc: &Vocab, ct: &CTok, cfg: &Cfg, rng: &mut Rng,
             b
         }).collect();
         let steps: Vec<LlgConstraintStep> = (0..cs.len())
-            .map(|i| LlgConstraintStep { constraint: cs[i], mask_dest: unsafe { bufs[i].as_mut_ptr().add(1) }, mask_byte_len: lens[i] * 4 })
+            .map(|i| LlgConstraintStep {
+                constraint: cs[i],
+                mask_dest: if contig { unsafe { big.as_mut_ptr().add(1 + i * slot) } } else { unsafe { bufs[i].as_mut_ptr().add(1) } },
+                mask_byte_len: lens[i] * 4,
+            })
             .collect();
         unsafe { llg_par_compute_mask(steps.as_ptr(), steps.len(), std::ptr::null(), None) };
+        if contig {
+            // copy the slots back into the per-step buffers; the right canary of a step stands for "nothing behind the
+            // last slot was touched" (padding still poisoned, end canary intact)
+            let tail_ok = big[1 + slot * cs.len()..big.len() - 1].iter().all(|&w| w == 0x7777_7777) && big[big.len() - 1] == CANARY;
+            for i in 0..cs.len() {
+                let src = big[1 + i * slot..1 + (i + 1) * slot].to_vec();
+                bufs[i][1..slot + 1].copy_from_slice(&src);
+                bufs[i][0] = big[0];
+                bufs[i][slot + 1] = if tail_ok { CANARY } else { 0 };
+            }
+        }
         let mut stops = vec![];
         for i in 0..cs.len() {
             let l = lens[i];
@@ -320,7 +346,9 @@ fn main() {
             Ok(c) => c,
             Err(_) => continue,
         };
-        matcher_part(ep, &voc, &ct, &cfg, &mut rng, &mut tr);
+        if ep["no_matcher"].as_u64().unwrap_or(0) == 0 {
+            matcher_part(ep, &voc, &ct, &cfg, &mut rng, &mut tr);
+        }
         constraint_part(ep, &voc, &ct, &cfg, &mut rng, &mut tr);
         unsafe { llg_free_tokenizer(ct.tok) };
     }
